@@ -723,7 +723,13 @@ pub mod spec {
     /// A-parse_os_str: conversion of an OS string into T (src/from_os_str.rs; TypeId/Any/FromStr code) is an uninterpreted function
     pub uninterp spec fn os_parse<T>(os: OsString) -> Result<T, String>;
 
-    /// the value of the first set variable among `names`, in declaration order (C18: only declared variables matter)
+    /// the value of the first set variable among `names`, in declaration order, in the environment `env`
+    pub open spec fn env_value_in(env: spec_fn(&'static str) -> Option<OsString>, names: Seq<&'static str>) -> Option<OsString>
+        decreases names.len(),
+    {
+        if names.len() == 0 { None } else if env(names[0]) is Some { env(names[0]) } else { env_value_in(env, names.drop_first()) }
+    }
+    /// the same in the environment of this run (C18: only declared variables matter, see lemma.C18.undeclared_variables_are_irrelevant)
     pub open spec fn env_value(names: Seq<&'static str>) -> Option<OsString>
         decreases names.len(),
     {
